@@ -123,7 +123,7 @@ ARRAY_RULE = ("every array of the corpus A (S1: all arrays of length 1-3 over a 
 def arrays(prop, expl, rule_extra="", dl_quick=150, dl_thorough=1800, configs=None):
     CHECKS[prop] = dict(
         name="arrays", harness=["checks/arrays.c", "engine/vmalloc.c"], libs=LIBS_ALL, wrap_malloc=True,
-        configs=configs or {"quick": ["pinned", "native"], "thorough": ["pinned", "native", "asan"]},
+        configs=configs or {"quick": ["pinned", "native"], "thorough": ["pinned", "native", "asan", "debug"]},
         shards={"pinned": 16, "native": 16, "asan": 16, "debug": 16},
         deadline={"quick": dl_quick, "thorough": dl_thorough},
         rule=ARRAY_RULE + rule_extra, explanation=expl,
@@ -282,7 +282,7 @@ CHECKS["C18"] = dict(
 
 CHECKS["C15"] = dict(
     name="c15", harness=["checks/c15.c", "engine/vmalloc.c"], wrap_malloc=True, engine="E-hist",
-    libs=LIBS_ALL,
+    libs=LIBS_ALL + ["varintDimension.c"],
     configs={"quick": ["pinned", "msan"], "thorough": ["pinned", "debug", "msan"]},
     shards={"pinned": 16, "debug": 16, "msan": 16},
     deadline={"quick": 150, "thorough": 1800},
